@@ -2383,6 +2383,9 @@ impl TransactionBuilder {
         if datums.is_some() || redeemers.len() > 0 || retained_cost_models.len() > 0 {
             self.script_data_hash =
                 Some(hash_script_data(&redeemers, &retained_cost_models, datums));
+        } else {
+            // nothing to hash (any more): a hash computed for an earlier state of the builder must not stay in the body
+            self.script_data_hash = None;
         }
 
         Ok(())
